@@ -240,10 +240,11 @@ func (h *History) SchedBG(d *Decoded) (string, error) {
 	}
 	var writes []int
 	for si := range h.Steps {
-		if h.Steps[si].Kind == "write" {
+		if h.Steps[si].Kind == "write" || h.Steps[si].Kind == "enqueue" {
 			writes = append(writes, si)
 		}
 	}
+	lastFlushPending := false // the last flush group took commands of an "enqueue" step
 	wi := 0 // next write step whose commands have not been flushed yet
 	next := Tgid0(d)
 	var out []string
@@ -292,41 +293,66 @@ func (h *History) SchedBG(d *Decoded) (string, error) {
 			if wi >= len(writes) {
 				return "", fmt.Errorf("event %d: a flush without a pending request", i)
 			}
-			st := &h.Steps[writes[wi]]
-			wi++
-			var bodyFiles []int
-			for _, c := range body.Cmds {
-				bodyFiles = append(bodyFiles, c.F)
-			}
-			type bt struct {
-				term string
-				key  int
-			}
-			var bts []bt
-			for bi := range st.Batches {
-				term, fids := h.batchTerm(d, &st.Batches[bi])
-				key := 1 << 30
-				for p, f := range bodyFiles {
-					for _, g := range fids {
-						if f == g && p < key {
-							key = p
-						}
-					}
+			// the group holds the commands of one acknowledged request (its own RequestFlush), or of every
+			// request that was only queued ("enqueue" steps) when the loop flushed: take requests until the
+			// number of commands matches
+			want, got := len(body.Cmds), 0
+			var group []*Step
+			lastFlushPending = false
+			for wi < len(writes) && got < want {
+				st := &h.Steps[writes[wi]]
+				got += h.cmdCount(st)
+				group = append(group, st)
+				if st.Kind == "enqueue" {
+					lastFlushPending = true
 				}
-				bts = append(bts, bt{term, key})
+				wi++
+				if st.Kind == "write" {
+					break // its RequestFlush is answered by this very flush
+				}
 			}
-			sort.SliceStable(bts, func(a, b int) bool { return bts[a].key < bts[b].key })
-			var terms []string
-			for _, b := range bts {
-				terms = append(terms, b.term)
+			if got != want {
+				return "", fmt.Errorf("event %d: flush group of %d commands does not end at a request boundary (%d)", i, want, got)
 			}
 			// timer flushes that found the queue empty (they only advance the TG id) come first
 			for ; next < body.Tid && body.Tid-next < 100000; next++ {
 				out = append(out, "(SFlush [])")
 			}
 			next = body.Tid + 1
-			out = append(out, fmt.Sprintf("(SEnqueue %s %s)", EvsTerm(pre), cq.List(terms)))
-			pre = nil
+			// position of each command's file in the body, per request in queue order
+			cmdAt := 0
+			for _, st := range group {
+				n := h.cmdCount(st)
+				var bodyFiles []int
+				for _, c := range body.Cmds[cmdAt : cmdAt+n] {
+					bodyFiles = append(bodyFiles, c.F)
+				}
+				cmdAt += n
+				type bt struct {
+					term string
+					key  int
+				}
+				var bts []bt
+				for bi := range st.Batches {
+					term, fids := h.batchTerm(d, &st.Batches[bi])
+					key := 1 << 30
+					for p, f := range bodyFiles {
+						for _, g := range fids {
+							if f == g && p < key {
+								key = p
+							}
+						}
+					}
+					bts = append(bts, bt{term, key})
+				}
+				sort.SliceStable(bts, func(a, b int) bool { return bts[a].key < bts[b].key })
+				var terms []string
+				for _, b := range bts {
+					terms = append(terms, b.term)
+				}
+				out = append(out, fmt.Sprintf("(SEnqueue %s %s)", EvsTerm(pre), cq.List(terms)))
+				pre = nil
+			}
 			out = append(out, fmt.Sprintf("(SFlush %s)", fidList(primFiles)))
 			i = j
 		case e.K == "walapp" && e.Rec.T == "txn" && e.Rec.Dest == 1 && e.Rec.St == 0:
@@ -356,7 +382,12 @@ func (h *History) SchedBG(d *Decoded) (string, error) {
 	if n := len(h.Steps); n > 0 && h.Steps[n-1].Kind == "shutdown" {
 		// Shutdown(): the loop's shutdown branch = FlushToWAL (nothing queued) + CreateCheckpoint; its
 		// checkpoint, if it wrote one, is the last group of the trace
-		if m := len(out); m > 0 && out[m-1] == "(SCheckpoint false)" {
+		if m := len(out); m > 1 && out[m-1] == "(SCheckpoint false)" && lastFlushPending && strings.HasPrefix(out[m-2], "(SFlush ") {
+			// requests were still queued: the shutdown branch's FlushToWAL wrote the last group, its
+			// CreateCheckpoint the last checkpoint (this order: the model's SShutdown)
+			out[m-2] = "(SShutdown " + strings.TrimSuffix(strings.TrimPrefix(out[m-2], "(SFlush "), ")") + ")"
+			out = out[:m-1]
+		} else if m > 0 && out[m-1] == "(SCheckpoint false)" {
 			out[m-1] = "(SShutdown [])"
 		} else {
 			out = append(out, "(SShutdown [])")
@@ -594,4 +625,24 @@ func CaseTerm(h *History, d *Decoded, sched string, obs []Obs, tgid0 int64, doub
 	return cq.Rec(cq.F("k_tgid0", cq.Z(tgid0)), cq.F("k_owner", cq.Z(InstanceID1)), cq.F("k_owner2", cq.Z(InstanceID2)),
 		cq.F("k_own2", cq.N(uint64(d.NWal))), cq.F("k_buckets", h.BucketsTerm(d)), cq.F("k_clen", ClenTerm(d)),
 		cq.F("k_sched", sched), cq.F("k_trace", EvsTerm(d.Evs)), cq.F("k_obs", cq.List(os)), cq.F("k_double", double), cq.F("k_pl", pl))
+}
+
+// cmdCount: the number of write commands WriteRecords queues for a request: one per run of consecutive rows
+// with the same (year, slot index) (writer.go:104-131, prevIndex/prevYear).
+func (h *History) cmdCount(st *Step) int {
+	n := 0
+	for bi := range st.Batches {
+		bt := &st.Batches[bi]
+		b := &h.Buckets[bt.Bucket]
+		info := h.info(b)
+		py, pi := -1, int64(-1)
+		for ri, r := range bt.Rows {
+			y, idx, _, _ := rowSlot(info, b, r)
+			if ri == 0 || y != py || idx != pi {
+				n++
+			}
+			py, pi = y, idx
+		}
+	}
+	return n
 }
